@@ -21,17 +21,25 @@ copy are consumed by the model; the op lines `reg`, `exit`, `radd`, `rbefore`, `
 objects, the executing marks and the root list are part of what is compared after every op.  After every history
 every instance is compared with a TWIN that never failed / never remembered anything (`twin_check`).  Shallow copies
 (`copy.copy(host)`) have a small model of their own (lean/PyrollModel/LifecycleCopy.lean, lean/PyrollProps/C02Copy.lean).
+
+Third generated module lean/PyrollModel/Gen/C02Units.lean (driver/translate/c02_units.py, whole package pyroll/core): the class
+hierarchy with its MROs, every definition of get_root_hook_results, the objects the constructors create, the root_hooks list -
+consumed by lean/PyrollModel/RootUnits.lean (WHICH objects the solver root-evaluates; theorems lean/PyrollProps/C02Units.lean).
+Fourth part of `run`: driver/props/c02_units.py - the root-hook sentences on a stream of real solved unit trees (two- and
+three-roll passes as core classes and as throw-away subclasses at every level of the hierarchy, transports, cooling pipes,
+rotators, disk elements, nested sequences, plug-in root hooks), oracle per object and per root hook of the object's class.
 """
 import copy
 import itertools
 import re
 
 from . import common  # noqa: F401  (silences the pyroll loggers)
+from . import c02_units        # the root-hook sentences on a stream of real solved units (oracle + K with RootUnits.lean)
 
 ID = "C02"
-LEAN_MODULES = ["PyrollProps.C02", "PyrollProps.C02Copy"]
+LEAN_MODULES = ["PyrollProps.C02", "PyrollProps.C02Copy", "PyrollProps.C02Units"]
 MODEL = "c02"
-MODEL_MODULES = ["PyrollModel.LifecycleDriver"]
+MODEL_MODULES = ["PyrollModel.LifecycleDriver", "PyrollModel.RootUnitsDriver"]
 
 
 def translate(ctx):
@@ -46,6 +54,10 @@ def translate(ctx):
     # evaluate_and_set_hooks' loop, HookHost.__copy__ / __hooks__ -> lean/PyrollModel/Gen/C02Extra.lean
     extra = c02_extra.emit(ctx)
     ctx.notes["hooks_source_extra"] = {k: v for k, v in extra["facts"].items()}
+    # third module: the class hierarchy of pyroll/core (MROs), every definition of get_root_hook_results with its statements,
+    # the objects the library constructs per unit class, the root_hooks list, the loop of Unit.solve
+    # -> lean/PyrollModel/Gen/C02Units.lean (consumed by lean/PyrollModel/RootUnits.lean)
+    c02_extra.emit_units(ctx)
 
 
 RULE = ("random operation histories (5-40 ops, 40% of the ops stay on the previous (instance, hook) pair; a removal is "
@@ -72,7 +84,16 @@ RULE = ("random operation histories (5-40 ops, 40% of the ops stay on the previo
         "history every instance is compared with a TWIN (new instance, same explicit values) hook by hook. Plus 150 "
         "(thorough 3000) shallow-copy histories (new / copy.copy / assign / delete / read / cache clear / new cache "
         "dictionary, 1-5 hosts) and solved real pass sequences (two passes, a transport between) for the root-hook "
-        "sentences.")
+        "sentences. Plus a stream of 120 (thorough 2000) REAL solved unit trees (driver/props/c02_units.py): two-roll lines "
+        "(round / box in, oval-round(-oval), box, diamond-square, swedish oval) and three-roll lines (oval-round), every pass "
+        "drawn as the core class, a type() subclass of it, a direct subclass of SymmetricRollPass grafted from the core "
+        "class, or a direct subclass of BaseRollPass with a constructor of its own; transports (duration / length), cooling "
+        "pipes, rotators, disk elements (0 / 2 / 3), a nested sub sequence in a third of the cases, a pass solved alone; "
+        "plug-in root hooks (core hooks of roll / unit / profile classes at every level of the hierarchy, new hooks with a "
+        "constant implementation on throw-away pass classes and their nested roll / profile classes) put into root_hooks "
+        "by insert_before / insert_after / append / add at a random position and removed in finally; a constant tryfirst "
+        "implementation over roll_torque / roll_force / power / strain_rate / elongation_efficiency in 30% of the cases; a "
+        "case is one spec, distinct by its JSON.")
 ASSUMPTIONS = [
     "source tie (T): pyroll/core/hooks.py is read with ast into canonical role lines and typed facts (driver/translate/hooks_skeleton.py and driver/translate/c02_extra.py, trusted); the facts the model consumes are also executed against the imported pyroll.core.hooks on every run (self_check), the role lines are compared with the hand-written shape lean/PyrollModel/HookSource.lean by the theorems hooks_source_as_modelled / hooks_source_extra_as_modelled",
     "CPython dict insertion order, descriptor protocol, inspect.signature arity and hasattr/getattr-default "
@@ -102,6 +123,14 @@ ASSUMPTIONS = [
     "trylast, then MRO-major, latest registration first)",
     "hook values are integers and booleans (0 and False being the falsy ones); numpy values occur only in the "
     "solved-sequence part",
+    "which objects the solution procedure evaluates root hooks on: the class hierarchy of pyroll/core with its MROs (C3 "
+    "computed by driver/translate/c02_units.py and compared with __mro__ of every imported class on every run), every "
+    "definition of get_root_hook_results, the objects the constructors create and the root_hooks list are read with ast "
+    "(trusted extractor; self-check: one call of get_root_hook_results on solved units of every kind is observed by wrapping "
+    "HookHost.evaluate_and_set_hooks for the extent of the call); the oracle on real units takes 'the objects the solver "
+    "works on' from the statement (unit, in / out profile, every Roll held in a public attribute, sub units recursively); the "
+    "roll of a harness-made direct subclass of BaseRollPass is outside (pyroll-core leaves the root evaluation of rolls to the "
+    "class that constructs them; counted as an observation)",
 ]
 
 HOOK_RE = re.compile(r"^h(\d+)$")
@@ -1762,6 +1791,8 @@ def run(ctx):
 
     # ---- real units -----------------------------------------------------------------------------------------
     real_units(ctx, ctx.budget(5, 40))
+    # the stream of real solved unit trees (every kind of pass class, plug-in root hooks) + K with RootUnits.lean
+    c02_units.run_units(ctx, ctx.budget(120, 2000))
 
 
 def replay(ctx, data):
@@ -1772,6 +1803,9 @@ def replay(ctx, data):
             k, key, info = bad
             ctx.violation(data.get("key", key), f"{key}: after `{info['op']}` observed {info['observed']}, expected "
                                                 f"{info['expected']}", {**r, **info})
+        return
+    if "units_spec" in r:
+        c02_units.replay_units(ctx, r)
         return
     if "ops" not in r:
         raise ValueError("replay of a solved-sequence finding: re-run the check with the recorded seed")
